@@ -3,7 +3,7 @@
 # (seeded_benign/CXX-b-k); every one must leave the check quiet (exit 0).
 P=$1; T=${2:-quick}
 cd "$(dirname "$0")/.."
-for D in seeded_benign/$P-b-*; do
+for D in seeded_benign/$P-b*; do
   S=$(mktemp -d /tmp/bb.XXXXXX); cp "$D/patch.diff" "$S/change1.diff"; cp "$D/demo.py" "$S/demo1.py"
   echo "== $(basename $D)"; SKIP_TESTS=1 tools/benign_eval.sh "$P" "$S" 1 "$T" | tail -2 | cut -c1-300
   rm -rf "$S"
